@@ -359,3 +359,154 @@ Proof.
   subst k. cbn [repeat] in Es. rewrite app_nil_r in Es. subst s.
   apply (b32_dec_canonical al ds d 0); auto. lia.
 Qed.
+
+(* ================================================================== Part 3: the families on the concrete codec *)
+Section Concrete.
+  Variable sha512_256 : list N -> list N.
+  Variable blake2b : nat -> list N -> list N.
+  Variable valid_pub : N -> list N -> bool.
+  Variable crc16_xmodem : list N -> list N.
+
+  Notation algo_decode := (algo_decode sha512_256 valid_pub b32_dec).
+  Notation algo_encode := (algo_encode sha512_256 b32_enc_nopad).
+  Notation xlm_decode := (xlm_decode valid_pub crc16_xmodem b32_dec).
+  Notation xlm_encode := (xlm_encode crc16_xmodem b32_enc_nopad).
+  Notation fil_decode := (fil_decode blake2b b32_dec).
+  Notation fil_encode := (fil_encode blake2b b32_enc_nopad).
+  Notation nano_decode := (nano_decode blake2b valid_pub b32_dec).
+  Notation nano_encode := (nano_encode blake2b b32_enc_nopad).
+  Notation nim_decode := (nim_decode b32_dec).
+
+  (* Stellar: 35 bytes = 56 symbols, no spare bits: every accepted string IS the encoder's output for the
+     returned key *)
+  Theorem xlm_accepted_is_encoding t s pub : xlm_decode t s = Ok pub ->
+    xlm_encode t pub = Ok s /\ valid_pub 2 pub = true /\ length pub = (ed25519_compr_len - 1)%nat.
+  Proof.
+    intros H. apply xlm_accepts_iff in H. destruct H as (D & L & Lc & V). split; [|auto].
+    unfold AddrText.xlm_encode. change ([t] ++ pub) with (t :: pub).
+    apply (b32_dec_canonical_exact None); [exact I|exact D|].
+    rewrite app_length, Lc. cbn [length]. rewrite L. reflexivity.
+  Qed.
+
+  (* Nano: 40 bytes = 64 symbols, no spare bits; but the three bytes in front of the key are not checked.
+     What holds: the 64 symbols are the Base32 text of pad ++ key ++ checksum, and if the pad bytes are the zero
+     bytes the encoder puts there the string IS the encoder's output *)
+  Theorem nano_accepted_partial s pub : nano_decode s = Ok pub ->
+    valid_pub 3 pub = true /\ length pub = (ed25519_compr_len - 1)%nat /\
+    exists a pad, s = nano_prefix ++ a /\ length pad = length nano_pad_dec /\
+      b32_enc_nopad (Some nano_alphabet) (pad ++ pub ++ nano_checksum blake2b pub) = Ok (nano_pad_enc ++ a) /\
+      (pad = nano_pad_dec -> nano_encode pub = Ok s).
+  Proof.
+    intros H. apply nano_accepts_iff in H. destruct H as (a & pad & -> & D & Lp & L & Lc & V).
+    split; [exact V|]. split; [exact L|]. exists a, pad. split; [reflexivity|]. split; [exact Lp|].
+    assert (E : b32_enc_nopad (Some nano_alphabet) (pad ++ pub ++ nano_checksum blake2b pub) = Ok (nano_pad_enc ++ a)).
+    { apply (b32_dec_canonical_exact (Some nano_alphabet)); [exact AddrInst.nano_alph_ok|exact D|].
+      rewrite !app_length, Lp, L, Lc. reflexivity. }
+    split; [exact E|]. intros ->. unfold AddrText.nano_encode. rewrite E. cbn [bind Ok].
+    rewrite skipn_app, Nat.sub_diag, skipn_all. reflexivity.
+  Qed.
+
+  (* Nimiq: 20 bytes = 32 symbols, no spare bits; spaces are free *)
+  Theorem nim_accepted_is_encoding s d : nim_decode s = Ok d ->
+    length d = nim_hash_len /\
+    exists body, b32_enc_nopad (Some nim_alphabet) d = Ok body /\
+      filter (fun c => negb (c =? 32)) s = nim_prefix ++ nim_checksum body ++ body.
+  Proof.
+    intros H. apply nim_accepts_iff in H. destruct H as (body & E & L & A & D).
+    destruct (b32_dec_inv _ _ _ AddrInst.nim_alph_ok D) as (ds & k & bits & pend & Es & Hds & _ & Hd & Hb & Hpend & Hl & Hv).
+    cbn [eff] in Es.
+    assert (k = 0%nat).
+    { destruct k as [|k]; [reflexivity|]. exfalso. rewrite Es in A. rewrite forallb_app in A.
+      apply andb_true_iff in A. destruct A as [_ A]. cbn [repeat forallb] in A. vm_compute in A. discriminate. }
+    subst k. cbn [repeat] in Es. rewrite app_nil_r in Es.
+    assert (Lds : length ds = 32%nat) by (rewrite <- (map_length (sym32 nim_alphabet)), <- Es; exact L).
+    rewrite Lds in Hl. assert (bits = 0 /\ length d = 20%nat) by lia. destruct H as [-> Ld].
+    assert (pend = 0) by (change (2 ^ 0) with 1 in Hpend; lia). subst pend.
+    split; [exact Ld|]. exists body. split; [|exact E]. rewrite Es.
+    apply (b32_dec_canonical (Some nim_alphabet) ds d 0 AddrInst.nim_alph_ok Hds Hd); [lia|lia|].
+    rewrite Hv. change (2 ^ 0) with 1. lia.
+  Qed.
+
+  (* Algorand: 36 bytes = 58 symbols with TWO spare bits.  What holds: 58 symbols then a run of '='; the symbols
+     are the regrouping of key ++ checksum with spare bits [pend] < 4; the string is the encoder's output exactly
+     when there is no '=' and the spare bits are zero *)
+  Theorem algo_accepted_partial s pub : algo_decode s = Ok pub ->
+    valid_pub 2 pub = true /\ length pub = (ed25519_compr_len - 1)%nat /\
+    exists ds k pend, s = map (sym32 rfc_alphabet) ds ++ repeat rfc_pad k /\ length ds = 58%nat /\ digits_ok 32 ds /\
+      pend < 4 /\ from_be 32 ds = be_to_int (pub ++ algo_checksum sha512_256 pub) * 4 + pend /\
+      (k = 0%nat -> pend = 0 -> algo_encode pub = Ok s).
+  Proof.
+    intros H. apply algo_accepts_iff in H. destruct H as (D & L & Lc & V). split; [exact V|]. split; [exact L|].
+    destruct (b32_dec_inv None _ _ I D) as (ds & k & bits & pend & Es & Hds & _ & Hd & Hb & Hpend & Hl & Hv).
+    cbn [eff] in Es. rewrite app_length, L, Lc in Hl.
+    change (N.of_nat (ed25519_compr_len - 1 + algo_cklen)) with 36 in Hl.
+    assert (bits = 2 /\ length ds = 58%nat) by lia. destruct H as [-> Lds]. change (2 ^ 2) with 4 in *.
+    exists ds, k, pend. repeat split; auto.
+    intros -> ->. cbn [repeat] in Es. rewrite app_nil_r in Es. subst s. unfold AddrText.algo_encode.
+    apply (b32_dec_canonical None ds _ 2 I Hds Hd); [lia| |rewrite Hv; change (2 ^ 2) with 4; lia].
+    rewrite app_length, L, Lc. change (N.of_nat (ed25519_compr_len - 1 + algo_cklen)) with 36. lia.
+  Qed.
+
+  (* Filecoin: 24 bytes = 39 symbols with THREE spare bits *)
+  Theorem fil_accepted_partial s h : fil_decode s = Ok h ->
+    length h = blake2b160_len /\
+    exists ds k pend, s = fil_prefix ++ (48 + fil_secp_type) :: map (sym32 fil_alphabet) ds ++ repeat rfc_pad k /\
+      length ds = 39%nat /\ digits_ok 32 ds /\ pend < 8 /\
+      from_be 32 ds = be_to_int (h ++ fil_checksum blake2b fil_secp_type h) * 8 + pend /\
+      (k = 0%nat -> pend = 0 ->
+       b32_enc_nopad (Some fil_alphabet) (h ++ fil_checksum blake2b fil_secp_type h) = Ok (map (sym32 fil_alphabet) ds)).
+  Proof.
+    intros H. apply fil_accepts_iff in H. destruct H as (body & -> & D & L & Lc). split; [exact L|].
+    destruct (b32_dec_inv _ _ _ AddrInst.fil_alph_ok D) as (ds & k & bits & pend & Es & Hds & _ & Hd & Hb & Hpend & Hl & Hv).
+    cbn [eff] in Es. rewrite app_length, L, Lc in Hl. change (N.of_nat (blake2b160_len + blake2b32_len)) with 24 in Hl.
+    assert (bits = 3 /\ length ds = 39%nat) by lia. destruct H as [-> Lds]. change (2 ^ 3) with 8 in *.
+    exists ds, k, pend. split; [rewrite Es; reflexivity|]. repeat split; auto.
+    intros _ ->. apply (b32_dec_canonical (Some fil_alphabet) ds _ 3 AddrInst.fil_alph_ok Hds Hd); [lia| |rewrite Hv; change (2 ^ 3) with 8; lia].
+    rewrite app_length, L, Lc. change (N.of_nat (blake2b160_len + blake2b32_len)) with 24. lia.
+  Qed.
+End Concrete.
+
+(* ---- refutations of "every accepted string is the encoder's output" for Algorand, Filecoin, Nano.
+   The hashes are Section variables of the model, so a refutation exhibits an instance: with the constant-zero
+   "hash" and every key valid, the encoder's address of the all-zero key and the accepted variants are concrete
+   strings the kernel evaluates.  (The same variants of REAL addresses are accepted by the library: findings
+   C10-ALGO-NONCANON, C10-FIL-NONCANON, C10-NANO-PADBITS; see harness/props/C10.py.) *)
+Definition zero_hash (_ : list N) : list N := repeat 0 32.
+Definition zero_blake (n : nat) (_ : list N) : list N := repeat 0 n.
+Definition any_valid (_ : N) (_ : list N) : bool := true.
+
+(* "AAAA...A" (58) is the address; "AAA...AB" (spare bits 01) and the address followed by "======" are accepted too *)
+Theorem algo_canonical_refuted : exists s1 s2 s3 pub,
+  algo_encode zero_hash b32_enc_nopad pub = Ok s1 /\ s2 <> s1 /\ s3 <> s1 /\
+  algo_decode zero_hash any_valid b32_dec s1 = Ok pub /\
+  algo_decode zero_hash any_valid b32_dec s2 = Ok pub /\
+  algo_decode zero_hash any_valid b32_dec s3 = Ok pub.
+Proof.
+  exists (repeat 65 58), (repeat 65 57 ++ [66]), (repeat 65 58 ++ repeat 61 6), (repeat 0 32).
+  split; [vm_compute; reflexivity|]. split; [vm_compute; discriminate|]. split; [vm_compute; discriminate|].
+  repeat split; vm_compute; reflexivity.
+Qed.
+
+(* "f1aaa...a" (39 a) is the address; a last symbol "b".."h" (spare bits 001..111) and a trailing "=" are accepted *)
+Theorem fil_canonical_refuted : exists s1 s2 s3 pub_u,
+  fil_encode zero_blake b32_enc_nopad pub_u = Ok s1 /\ s2 <> s1 /\ s3 <> s1 /\
+  fil_decode zero_blake b32_dec s1 = Ok (zero_blake blake2b160_len pub_u) /\
+  fil_decode zero_blake b32_dec s2 = Ok (zero_blake blake2b160_len pub_u) /\
+  fil_decode zero_blake b32_dec s3 = Ok (zero_blake blake2b160_len pub_u).
+Proof.
+  exists (fil_prefix ++ [49] ++ repeat 97 39), (fil_prefix ++ [49] ++ repeat 97 38 ++ [104]),
+         (fil_prefix ++ [49] ++ repeat 97 39 ++ [61]), [].
+  split; [vm_compute; reflexivity|]. split; [vm_compute; discriminate|]. split; [vm_compute; discriminate|].
+  repeat split; vm_compute; reflexivity.
+Qed.
+
+(* "nano_111...1" (60) is the address; a first symbol with non-zero pad bits ("4" = 00010) is accepted *)
+Theorem nano_canonical_refuted : exists s1 s2 pub,
+  nano_encode zero_blake b32_enc_nopad pub = Ok s1 /\ s2 <> s1 /\
+  nano_decode zero_blake any_valid b32_dec s1 = Ok pub /\
+  nano_decode zero_blake any_valid b32_dec s2 = Ok pub.
+Proof.
+  exists (nano_prefix ++ repeat 49 60), (nano_prefix ++ [52] ++ repeat 49 59), (repeat 0 32).
+  split; [vm_compute; reflexivity|]. split; [vm_compute; discriminate|].
+  split; vm_compute; reflexivity.
+Qed.
